@@ -1373,3 +1373,84 @@ def va_list_once(P, R, rule, what='variable argument lists'):
                 n += 1
                 R.ob(rule, 'spent' not in sts, s, '%s: the argument list %s handed to %s has not been walked before on any path (states: %s)' % (f.name, v, c or 'a callback', sorted(sts)), key='va:%s:%s:%s' % (f.name, v, c))
     R.floor(rule, 4, what)
+
+
+def linform(e):
+    """e as a linear form over opaque atoms: ({atom text: coefficient}, constant), or None.  Casts are transparent."""
+    from .model import sx as _sx, const_of as _c
+    while isinstance(e, dict) and e.get('k') in ('cast', 'paren'):
+        e = e.get('e')
+    if not isinstance(e, dict):
+        return None
+    c = _c(e)
+    if isinstance(c, int):
+        return ({}, c)
+    if e.get('k') == 'bin' and e.get('op') in ('+', '-'):
+        a, b = linform(e.get('l')), linform(e.get('r'))
+        if a is None or b is None:
+            return None
+        sgn = 1 if e['op'] == '+' else -1
+        t = dict(a[0])
+        for k, v in b[0].items():
+            t[k] = t.get(k, 0) + sgn * v
+        return ({k: v for k, v in t.items() if v}, a[1] + sgn * b[1])
+    if e.get('k') == 'un' and e.get('op') == '-':
+        a = linform(e.get('e'))
+        return None if a is None else ({k: -v for k, v in a[0].items()}, -a[1])
+    return ({_sx(e): 1}, 0)
+
+
+def snprintf_fit(P, R, rule, fns, what='tests of a formatted length against its buffer'):
+    """(v)snprintf returns the length the text NEEDS; it fitted only if that is strictly less than the size it was given
+    (C99).  Wherever the result is compared with that size - in whatever arrangement of the terms - the comparison puts
+    "equal" on the did-not-fit side: writing x for result - size, the test separates x <= -1 from x >= 0."""
+    n = 0
+    for f in fns:
+        for s in f.sites():
+            calls = []
+            for ex in event_exprs(s.ev):
+                calls += [x for x in walk(ex) if x.get('k') == 'callref' and x.get('callee') in ('vsnprintf', 'snprintf', '__vsnprintf_chk', '__snprintf_chk')]
+            if s.ev['k'] == 'call' and s.ev.get('callee') in ('vsnprintf', 'snprintf'):
+                calls.append(s.ev)
+            for c in calls:
+                size = linform(c['args'][1])
+                if size is None or not size[0]:
+                    continue        # a constant size: compared with sizeof, judged where the caller does it
+                # the variable the result lands in
+                res = None
+                if s.ev['k'] == 'store' and is_var(s.ev.get('lhs')) and s.ev.get('op') == '=':
+                    res = s.ev['lhs']['name']
+                elif s.ev['k'] == 'decl':
+                    res = s.ev.get('var')
+                if res is None:
+                    continue
+                for bid in f.reachable_blocks():
+                    for e in f.out[bid]:
+                        r = edge_rel(e)
+                        if not r or r[1] not in ('<', '<=', '>', '>='):
+                            continue
+                        a, b = linform(r[0]), linform(r[2])
+                        if a is None or b is None:
+                            continue
+                        d = dict(a[0])
+                        for k, v in b[0].items():
+                            d[k] = d.get(k, 0) - v
+                        d = {k: v for k, v in d.items() if v}
+                        cst = a[1] - b[1]
+                        if res not in d or abs(d[res]) != 1:
+                            continue
+                        sg = d[res]
+                        # d*sg - res must equal -size
+                        rest = {k: v * sg for k, v in d.items() if k != res}
+                        if rest != {k: -v for k, v in size[0].items()}:
+                            continue
+                        cst = cst * sg - (-size[1])
+                        op = r[1] if sg == 1 else {'<': '>', '<=': '>=', '>': '<', '>=': '<='}[r[1]]
+                        # x + cst op 0, x = result - size
+                        thr = {'<': -cst - 1, '<=': -cst, '>': -cst, '>=': -cst - 1}[op]      # the test separates x <= thr from x > thr
+                        n += 1
+                        R.ob(rule, thr == -1, e.src if False else f.blocks[e.src].get('term', {}).get('loc') and P.relloc(f.blocks[e.src]['term']['loc']) or f,
+                             'in %s the length %s returned by %s is compared with the size it was given so that "equal" counts as too long (the test separates result - size <= %d from the rest; -1 is right)' % (f.name, res, c['callee'], thr),
+                             key='fit:%s:%s' % (f.name, res))
+                        R.obligations[-1]['function'] = f.name
+    R.floor(rule, 1, what)
